@@ -8,6 +8,7 @@ exec(src)
 seeds = [int(x) for x in sys.argv[1].split(",")] if len(sys.argv) > 1 else [11, 12, 13]
 profiles = sys.argv[2].split(",") if len(sys.argv) > 2 else ["mixed", "match", "reverse", "create", "fee", "conv", "modify", "migrate"]
 nh = int(sys.argv[3]) if len(sys.argv) > 3 else 10
+build_harness()
 wd = os.path.join(WORK, "soak-%d" % os.getpid())
 os.makedirs(wd, exist_ok=True)
 tot = collections.Counter()
